@@ -58,6 +58,7 @@ Record vctx := mkC {
   c_frontier : option (Z * Z);            (* accountStore.Frontier().Identifier() = (hash, height); None = nil *)
   c_prev_ma_height : option Z;            (* accountStore.ByHeight(previous.Height).MomentumAcknowledged.Height; None = nil block *)
   c_from_to : option Z;                   (* momentumStore.GetAccountBlockByHash(FromBlockHash).ToAddress; None = not found *)
+  c_from_is_send : bool;                  (* that block .IsSendBlock(); fromHash() does NOT look at it (observation only) *)
   c_from_conf : Z;                        (* momentumStore.GetBlockConfirmationHeight(FromBlockHash) *)
   c_received : bool;                      (* accountStore.IsReceived(FromBlockHash) *)
   c_next : option Z;                      (* accountStore.SequencerFront(mailbox): hash id of the header; None = nil *)
